@@ -48,4 +48,14 @@ man = {
     "notes": "Family: machine-checked proof in Lean 4. See DESIGN.md. KNOWN_FINDINGS.json lists recorded defects and fix: commits.",
 }
 json.dump(man, open(os.path.join(V, "MANIFEST.json"), "w"), indent=1)
+# assemble KNOWN_FINDINGS.json from findings/*.json (development-time only; never at check run time)
+kf = {"_comment": "Genuine defects of Tochemey/goakt found by the checks (assembled from findings/*.json by tools/mkmanifest.py). Open findings are reported as KNOWN-FINDING lines, matched by classify() in tools/props/<id>.py as described in `signature`; anything failing outside those signatures is a VIOLATION. `fixed` entries record fix: commits in /repo and suppress nothing. Never written at check run time.",
+      "findings": [], "fixed": []}
+fdir = os.path.join(V, "findings")
+for fn in sorted(os.listdir(fdir)) if os.path.isdir(fdir) else []:
+    if fn.endswith(".json"):
+        d = json.load(open(os.path.join(fdir, fn)))
+        kf["findings"] += d.get("findings", [])
+        kf["fixed"] += d.get("fixed", [])
+json.dump(kf, open(os.path.join(V, "KNOWN_FINDINGS.json"), "w"), indent=1)
 print(f"{len(checks)} checks, {len(not_app)} not_applicable")
